@@ -40,7 +40,7 @@ func init() {
 			"database-stored integrations are stored complete (with the identity columns) and their tables exist; database-stored sources get the defaults the loader gives them",
 			"runners end by reaching a configured stop block; wall-clock appears only as watchdogs (inconclusive)",
 		},
-		NCases: func(tier string) int { return c20Lifecycles(tier) + 1 },
+		NCases:           func(tier string) int { return c20Lifecycles(tier) + 1 },
 		Run:              c20Run,
 		CrashIsViolation: true,
 		CaseTimeoutS:     90,
@@ -208,7 +208,16 @@ func c20Run(c *vk.Case) {
 		c.Inconclusive("pool: %v", err)
 		return
 	}
-	defer pool.Close()
+	defer func() {
+		// (Close waits for every connection that was taken from the pool: one that the code under test never gave
+		// back would block the case for good)
+		done := make(chan struct{})
+		go func() { pool.Close(); close(done) }()
+		select {
+		case <-done:
+		case <-time.After(5 * time.Second):
+		}
+	}()
 
 	// one chain, several nodes (one per source)
 	chain := simnode.NewChain(nextChainID(), gen.Content(gen.ChainOpts{Seed: r.U64(), MinTxs: 1, MaxTxs: 2}))
@@ -226,6 +235,9 @@ func c20Run(c *vk.Case) {
 	case 1:
 		unknownIn = "db"
 	}
+	// half of the database variants: the stored document itself cannot be decoded completely (its name can): that is a
+	// load error like the unknown source, not an integration to run with whatever was decoded
+	undecodable := unknownIn == "db" && r.Bool()
 	// sources
 	var srcs []*c20Src
 	for i, name := range namePoolSrc {
@@ -337,7 +349,7 @@ func c20Run(c *vk.Case) {
 	// database configuration
 	storeIG := func(ig *c20IG, extraUnknown bool) bool {
 		d := mkDecl(ig, true)
-		if extraUnknown {
+		if extraUnknown && !undecodable {
 			d.Sources = append(d.Sources, model.SrcRef{Name: "src-nowhere", Start: 1, Stop: 5})
 		}
 		b, _ := json.Marshal(map[string]any{"integrations": []any{d.ConfigJSON()}})
@@ -355,6 +367,15 @@ func c20Run(c *vk.Case) {
 			return false
 		}
 		cj, _ := json.Marshal(tmp.Integrations[0])
+		if extraUnknown && undecodable {
+			bad := bytes.Replace(cj, []byte(`"enabled":true`), []byte(`"enabled":"yes"`), 1)
+			if bytes.Equal(bad, cj) {
+				c.Inconclusive("harness: could not make the stored integration undecodable")
+				return false
+			}
+			cj = bad
+			c.Obs("undecodable_stored_integrations", 1)
+		}
 		if _, err := pool.Exec(ctx, `insert into shovel.integrations(name, conf) values ($1, $2)`, ig.Name, cj); err != nil {
 			c.Inconclusive("storing integration: %v", err)
 			return false
@@ -548,6 +569,16 @@ func c20Run(c *vk.Case) {
 				c.Obs("restarts_after_failed_load", 1)
 			}
 		}()
+		// nothing runs now (every load failed): every connection the loads took must be back in the pool, or a few
+		// more failed loads leave the manager without any
+		for i := 0; i < 100 && pool.Stat().AcquiredConns() > 0; i++ {
+			time.Sleep(10 * time.Millisecond) // releases are asynchronous
+		}
+		c.Obs("pool_checked_after_failed_loads", 1)
+		if n := pool.Stat().AcquiredConns(); n > 0 {
+			c.Violate("failed-load-keeps-connections:"+unknownIn, merge(detail, map[string]any{"connections_not_returned": n, "failed_loads": 3, "pool_size": pool.Stat().MaxConns(), "stored_document_undecodable": undecodable}),
+				"after three failed loads (start-up and two restarts) and with no task running, %d connections of the pool (size %d) have not been returned: after as many failed loads as the pool has connections no restart can load anything", n, pool.Stat().MaxConns())
+		}
 		return
 	}
 	if startErr != nil {
